@@ -95,6 +95,7 @@ Definition wf_pkct (a : Z) (ct : pkct) : Prop :=
   | CRsa v => (a = 1 \/ a = 2) /\ 0 <= v /\ bit_length v < 65536
   | CEcdh xy c => a = 18 /\ wf_bytes xy /\ Z.of_nat (length xy) <= 8000 /\ (length c < 256)%nat /\
                   exists r, (xy = 4 :: r /\ Nat.even (length r) = true) \/ xy = 64 :: r
+  | COpaque x => pk_class a = false
   | _ => False
   end.
 Definition wf_spec (sp : s2kspec) : Prop :=
@@ -110,17 +111,24 @@ Definition wf_esk (e : esk) : Prop :=
 
 Lemma pkesk_body_parse h id a ct b rest :
   length id = 8%nat -> wf_pkct a ct -> pkct_bytes ct = Ok b ->
+  h_len h = Z.of_nat (length ([3] ++ id ++ [a] ++ b)) ->
   pkesk_parse h (id ++ [a] ++ b ++ rest) = Ok (PK id a ct, rest).
 Proof.
-  intros Li W E. unfold pkesk_parse. rewrite firstn_app_exact, skipn_app_exact by exact Li. cbn [app].
-  destruct ct as [v|xy c|? ?|]; cbn [wf_pkct] in W; try contradiction.
+  intros Li W E Hl. unfold pkesk_parse. rewrite firstn_app_exact, skipn_app_exact by exact Li. cbn [app].
+  destruct ct as [v|xy c|? ?|x]; cbn [wf_pkct] in W; try contradiction.
+  3:{ (* opaque: the rest of the packet, as many octets as the header counts after version, key id and algorithm *)
+      cbn [pkct_bytes] in E. injection E as <-. unfold pk_class in W.
+      assert (T1 : (a =? 1) || (a =? 2) = false) by lia. assert (T2 : (a =? 16) || (a =? 20) = false) by lia.
+      assert (T3 : (a =? 18) = false) by lia. rewrite T1, T2, T3.
+      rewrite !app_length in Hl. cbn [length] in Hl. rewrite Li in Hl.
+      replace (h_len h - 10) with (Z.of_nat (length x)) by lia.
+      rewrite py_take_app, py_drop_app. reflexivity. }
   - destruct W as [Ha [Hv Hb]]. cbn [pkct_bytes] in E. injection E as <-.
-    assert (V : pk_valid a = true) by (destruct Ha; subst; reflexivity).
-    rewrite V. cbn [negb]. assert (T : (a =? 1) || (a =? 2) = true) by lia. rewrite T.
+    assert (T : (a =? 1) || (a =? 2) = true) by lia. rewrite T.
     rewrite mpi_roundtrip by assumption. reflexivity.
   - destruct W as [-> [Wxy [Lxy [Lc [r Hshape]]]]]. cbn [pkct_bytes] in E.
     destruct (256 <=? Z.of_nat (length c)) eqn:E256; [lia|]. injection E as <-.
-    change (pk_valid 18) with true. cbn [negb]. change ((18 =? 1) || (18 =? 2)) with false. change ((18 =? 16) || (18 =? 20)) with false.
+    change ((18 =? 1) || (18 =? 2)) with false. change ((18 =? 16) || (18 =? 20)) with false.
     change (18 =? 18) with true. cbv iota.
     assert (P : 0 < unbe xy /\ bit_length (unbe xy) < 65536 /\ mpi_body (unbe xy) = xy).
     { destruct Hshape as [[-> _]| ->]; eapply mpi_body_point; try reflexivity; try assumption; lia. }
@@ -200,13 +208,39 @@ Proof.
   - destruct W as [Li Wc]. destruct (pkct_bytes c) as [b|] eqn:EC; cbn [bind] in EB; [|discriminate]. injection EB as <-.
     change ((1 =? 1) || (1 =? 3) || (1 =? 18)) with true. cbv iota. cbn [app]. change (1 =? 1) with true. change (3 =? 3) with true. cbv iota.
     replace ((id ++ a :: b) ++ rest) with (id ++ [a] ++ b ++ rest) by (rewrite <- app_assoc; reflexivity).
-    rewrite (pkesk_body_parse h id a c b rest Li Wc EC). reflexivity.
+    rewrite (pkesk_body_parse h id a c b rest Li Wc EC); [reflexivity|]. rewrite HL. cbn [app]. reflexivity.
   - destruct W as [V Ws]. injection EB as <-.
     change ((3 =? 1) || (3 =? 3) || (3 =? 18)) with true. cbv iota. cbn [app]. change (3 =? 1) with false. change (3 =? 3) with true. change (4 =? 4) with true. cbv iota.
     match goal with |- context [skesk_parse h ?x] => replace x with ([a] ++ s2k_bytes sp ++ c ++ rest) end.
     2:{ unfold s2k_bytes. cbn [app]. repeat rewrite <- app_assoc. reflexivity. }
     rewrite (skesk_body_parse h a sp c rest V Ws); [reflexivity|]. rewrite HL. reflexivity.
 Qed.
+
+(* a session key packet of an algorithm PGPy has no ciphertext class for (listed in PubKeyAlgorithm or not), with ANY octets
+   after the algorithm octet, is read back as it was written, and what follows it is untouched *)
+Theorem opaque_pkesk_roundtrip id a x p rest fuel acc ct :
+  length id = 8%nat -> pk_class a = false -> esk_packet (PK id a (COpaque x)) = Ok p -> small p ->
+  msg_parse_loop (S fuel) (p ++ rest) acc ct = msg_parse_loop fuel rest (acc ++ [PK id a (COpaque x)]) ct.
+Proof. intros Li C E Sm. apply esk_packet_step; [split; [exact Li|exact C]|exact E|exact Sm]. Qed.
+Theorem opaque_pkesk_alone id a x p :
+  length id = 8%nat -> pk_class a = false -> esk_packet (PK id a (COpaque x)) = Ok p -> small p ->
+  msg_parse p = Ok ([PK id a (COpaque x)], None).
+Proof.
+  intros Li C E Sm. unfold msg_parse. rewrite <- (app_nil_r p) at 2.
+  rewrite (opaque_pkesk_roundtrip id a x p [] (length p) [] None Li C E Sm). destruct (length p); reflexivity.
+Qed.
+
+(* regression (before 3c26ab3 / f2ab7da), header length 13 = version + key id + algorithm + three octets 7 8 9:
+   algorithm 22 (listed, no class): the three octets were LEFT IN THE BUFFER (header.length - 18 is negative there) and three
+   zero octets written in their place; algorithm 100 (not listed): refused, and with it the whole message.  Both are kept now *)
+Theorem pkesk_parse_old_refuted :
+  let h := {| h_lenfmt := 1; h_tag := 1; h_llen := 1; h_len := 13 |} in
+  let id := [1; 2; 3; 4; 5; 6; 7; 8] in
+  pkesk_parse_old h (id ++ [22; 7; 8; 9]) = Ok (PK id 22 (COpaque [0; 0; 0]), [7; 8; 9]) /\
+  pkesk_parse_old h (id ++ [100; 7; 8; 9]) = Raise EPGP /\
+  pkesk_parse h (id ++ [22; 7; 8; 9]) = Ok (PK id 22 (COpaque [7; 8; 9]), []) /\
+  pkesk_parse h (id ++ [100; 7; 8; 9]) = Ok (PK id 100 (COpaque [7; 8; 9]), []).
+Proof. vm_compute. repeat split. Qed.
 
 Lemma esks_emit_parse es : forall b rest fuel acc ct,
   Forall wf_esk es -> esks_emit es = Ok b -> small b ->
@@ -279,7 +313,7 @@ Section Wf.
   Variable s2k : Z -> Z -> bytes -> Z -> nat -> bytes -> option bytes.
 
   Hypothesis rsa_ok : forall h seed m c, rsa_enc h seed m = Some c ->
-    wf_bytes c /\ Z.of_nat (length c) = rsa_bits h / 8 /\ rsa_bits h < 65536 /\ rsa_dec h c = Some m.
+    wf_bytes c /\ Z.of_nat (length c) = (rsa_bits h + 7) / 8 /\ rsa_bits h + 7 < 65536 /\ rsa_dec h c = Some m.
   (* the ephemeral public key is an uncompressed SEC1 point 04 || X || Y or a native point 40 || X *)
   Hypothesis ecdh_point : forall h seed v s, ecdh_gen h seed = Some (v, s) ->
     wf_bytes v /\ Z.of_nat (length v) <= 8000 /\ exists r, (v = 4 :: r /\ Nat.even (length r) = true) \/ v = 64 :: r.
@@ -307,7 +341,7 @@ Section Wf.
         cbn [wf_esk wf_pkct]. split; [exact W|]. split; [auto|].
         pose proof (unbe_bounds c Wc) as B. unfold bytes_to_int. split; [lia|].
         assert (Lk : Z.of_nat (length c) < 8192).
-        { pose proof (Z.div_mod (rsa_bits (k_fp k)) 8 ltac:(lia)). pose proof (Z.mod_pos_bound (rsa_bits (k_fp k)) 8 ltac:(lia)). lia. }
+        { pose proof (Z.div_mod (rsa_bits (k_fp k) + 7) 8 ltac:(lia)). pose proof (Z.mod_pos_bound (rsa_bits (k_fp k) + 7) 8 ltac:(lia)). lia. }
         assert (bit_length (unbe c) <= 8 * Z.of_nat (length c)); [|lia].
         apply bit_length_le; [lia|]. replace (2 ^ (8 * Z.of_nat (length c))) with (256 ^ Z.of_nat (length c)); [lia|].
         change 256 with (2 ^ 8). rewrite <- Z.pow_mul_r by lia. reflexivity.
@@ -346,7 +380,7 @@ Section Wire.
   Hypothesis cfb_dec_enc : forall a k x c, cfb_enc a k x = Some c -> cfb_dec a k c = Some x.
   Hypothesis cfb_len : forall a k c x, cfb_dec a k c = Some x -> length x = length c.
   Hypothesis rsa_ok : forall h seed m c, rsa_enc h seed m = Some c ->
-    wf_bytes c /\ Z.of_nat (length c) = rsa_bits h / 8 /\ rsa_bits h < 65536 /\ rsa_dec h c = Some m.
+    wf_bytes c /\ Z.of_nat (length c) = (rsa_bits h + 7) / 8 /\ rsa_bits h + 7 < 65536 /\ rsa_dec h c = Some m.
   Hypothesis ecdh_ok : forall h seed v s, ecdh_gen h seed = Some (v, s) -> ecdh_shared h v = Some s.
   Hypothesis ecdh_point : forall h seed v s, ecdh_gen h seed = Some (v, s) ->
     wf_bytes v /\ Z.of_nat (length v) <= 8000 /\ exists r, (v = 4 :: r /\ Nat.even (length r) = true) \/ v = 64 :: r.
